@@ -74,7 +74,7 @@ class Tracer:
                 finally:
                     tr.depth -= 1
                     if res is not None:
-                        tr.records.append(('call', kind, sa, tr.r_res(kind, res), tr.r_sa(sa), tr.r_nl(k.log[n0:])))
+                        tr.records.append(('call', kind, sa, tr.r_res(kind, res), tr.r_sa(sa, tr.w.current.controller.ike_sas), tr.r_nl(k.log[n0:])))
             setattr(cls, name, wrapper)
         for n in REQ:
             wrap(n, 'req')
@@ -162,8 +162,13 @@ class Tracer:
         out += [hx(s.my_addr.packed), hx(s.peer_addr.packed), '1' if s.cookie_secret is not None else '0']
         return out
 
-    def r_sa(self, s):
-        return self.r_core(s) + opt(None if s.new_ike_sa is None else self.r_core(s.new_ike_sa))
+    def r_sa(self, s, table=None):
+        """`table`: the successor of an IKE_SA that is already a table entry is the same object as that entry (it is
+        rendered once, as the entry)"""
+        n = s.new_ike_sa
+        if n is not None and table is not None and (any(x is n for x in table) or int(n.state) == 21):
+            n = None          # (a successor that has meanwhile ended is of no further consequence either)
+        return self.r_core(s) + opt(None if n is None else self.r_core(n))
 
     def r_nl(self, recs):
         out = []
@@ -193,7 +198,7 @@ class Tracer:
                 return orig(datagram=datagram, event=event, control=control)
             w = tr.w
             pre_objs = list(ep.controller.ike_sas)
-            pre = [tr.r_sa(s) for s in pre_objs]
+            pre = [tr.r_sa(s, pre_objs) for s in pre_objs]
             thr = ep.controller.cookie_threshold
             tr.records, tr.parsed = [], None
             nl0 = len(ep.kernel.log)
@@ -256,7 +261,7 @@ class Tracer:
             interrupted = (not ok) or len(ep.contained) > ncont
             exp_t = ['1' if interrupted else '0', str(ran), str(len(post_objs))]
             for s in post_objs:
-                exp_t += tr.r_sa(s)
+                exp_t += tr.r_sa(s, post_objs)
             sent = w.sent[sent0:]
             cands = []
             for s in pre_objs + post_objs:
